@@ -376,11 +376,25 @@ std::map<TrackDataKey, TrackData> HxcMfmFile::get_track_metadata()
 {
   std::map<TrackDataKey, TrackData> result;
 
+  // The track list has one record per track per side; we stop at
+  // the record for the last track of the last side, but never read
+  // more records than the header says there are.
+  const unsigned long max_records =
+    static_cast<unsigned long>(header_.tracks) * header_.sides;
+  unsigned long records_read = 0;
   for (unsigned long pos = header_.track_list_offset;
        /* termination by break */;
        pos += 11)
     {
+      if (records_read++ >= max_records)
+	{
+	  throw InvalidHxcMfmFile("the track list does not contain an entry for the last track");
+	}
       std::vector<byte> raw_metadata = file_->read(pos, 11);
+      if (raw_metadata.size() < 11)
+	{
+	  throw InvalidHxcMfmFile("the track list extends beyond the end of the file");
+	}
       const byte* raw = raw_metadata.data();
       const TrackDataKey key(le_word(raw), raw[2]);
       const TrackData td(le_quad(raw+3), le_quad(raw+7));
